@@ -39,7 +39,7 @@ def required_cells(tier):
            "tau:0": 1, "tau:finite": 1, "tau:inf": 1, "basis:rotated": 2,
            "degenerate_o": 1, "unique": 2, "api:tempo": 3, "api:pt": 3,
            "modes": 2, "modes:lindblad": 1, "custom_j": 1,
-           "long-times": 3, "pt-route:file": 2, "pt-route:auto-file": 2,
+           "long-times": 3, "subdiv_limit:small": 6, "pt-route:file": 2, "pt-route:auto-file": 2,
            "pt-route:reimport-file": 2, "pt-route:file+reopen-simple": 2,
            "pt-route:file-or-import&rotated": 4}
     return req
@@ -132,7 +132,7 @@ def _gen_commuting(case):
     epsrel = float(rng.choice([1e-7, 1e-8, 1e-9, 1e-10]))
     unique = bool(i % 3 == 2)
     api = "pt" if i % 2 == 1 else "tempo"
-    use_tcut = bool(kmax is not None and i % 4 == 2)
+    use_tcut = bool(kmax is not None and i % 4 in (2, 3))
     skind = ["mixed", "pure", "rankdef"][i % 3]
     return dict(rng=rng, p=p, custom=custom, d=d, energies=energies, o=o,
                 long_times=long_times,
@@ -211,11 +211,17 @@ def run_commuting(case):
     kw = dict(dt=dt, epsrel=g["epsrel"])
     if kmax is not None:
         if g["use_tcut"]:
-            kw["tcut"] = kmax * dt
+            # as a user writes it: 0.3 for three steps of 0.1 (not the float
+            # product 0.30000000000000004)
+            kw["tcut"] = float(repr(round(kmax * dt, 10)))
         else:
             kw["dkmax"] = kmax
         if tau is not None:
             kw["add_correlation_time"] = tau
+    # subdiv_limit concerns the integration of time-dependent Liouvillians
+    # only: for a time-independent system any value is without effect
+    sub = [256, None, 2, 256, 10, 1][case["idx"] % 6]
+    kw["subdiv_limit"] = sub
     params = oqupy.TempoParameters(**kw)
     system = oqupy.System(h)
     start = 0.0 if case["idx"] % 4 else 1.7
@@ -279,6 +285,8 @@ def run_commuting(case):
         cells.append("custom_j")
     if g["long_times"]:
         cells.append("long-times")
+    if sub not in (256, None):
+        cells.append("subdiv_limit:small")
     if route != "memory":
         cells.append("pt-route:" + route)
         if g["vkind"] != "identity":
